@@ -327,6 +327,141 @@ Qed.
 End Generic.
 Arguments cache_ok {X A P} _ _ _.
 
+(* ---- reverse(), written as the n//2 swaps through __setitem__, is list.reverse ---- *)
+Section Reverse.
+Variables X A P R : Type.
+Notation pk := (pk X A P).
+
+Lemma py_index_nat : forall n i, i < n -> py_index n (Z.of_nat i) = Some i.
+Proof.
+  intros n i H. unfold py_index.
+  destruct (Z.of_nat i <? 0)%Z eqn:E; [apply Z.ltb_lt in E; lia|]. rewrite E.
+  destruct (Z.of_nat i <? Z.of_nat n)%Z eqn:E2; [|apply Z.ltb_ge in E2; lia].
+  rewrite Nat2Z.id. reflexivity.
+Qed.
+
+Lemma list_set_length : forall (l : list X) i x, i < List.length l -> List.length (list_set i x l) = List.length l.
+Proof.
+  intros l i x H. unfold list_set. rewrite app_length, firstn_length. cbn [List.length].
+  rewrite skipn_length. lia.
+Qed.
+
+Lemma nth_error_firstn_lt : forall (l : list X) i j, j < i -> nth_error (firstn i l) j = nth_error l j.
+Proof.
+  induction l as [|x r IH]; intros i j H; destruct i; try lia; [destruct j; reflexivity|].
+  destruct j; cbn; [reflexivity|]. apply IH. lia.
+Qed.
+
+Lemma nth_error_skipn_add : forall (l : list X) i j, nth_error (skipn i l) j = nth_error l (i + j).
+Proof.
+  induction l as [|x r IH]; intros i j; destruct i; cbn; try reflexivity; [destruct j; reflexivity|apply IH].
+Qed.
+
+Lemma nth_error_rev : forall (l : list X) j, j < List.length l ->
+  nth_error (rev l) j = nth_error l (List.length l - 1 - j).
+Proof.
+  intros l j H. destruct l as [|d t] eqn:E; [cbn in H; lia|]. rewrite <- E in *.
+  rewrite (nth_error_nth' (rev l) d) by (rewrite rev_length; exact H).
+  rewrite (nth_error_nth' l d) by lia. f_equal. rewrite rev_nth by exact H. f_equal. lia.
+Qed.
+
+Lemma nth_error_list_set : forall (l : list X) i x j, i < List.length l ->
+  nth_error (list_set i x l) j = if Nat.eqb j i then Some x else nth_error l j.
+Proof.
+  intros l i x j H. unfold list_set.
+  destruct (Nat.eqb j i) eqn:E.
+  - apply Nat.eqb_eq in E. subst. rewrite nth_error_app2; rewrite firstn_length; [|lia].
+    replace (i - Nat.min i (List.length l)) with 0 by lia. reflexivity.
+  - apply Nat.eqb_neq in E. destruct (Nat.lt_ge_cases j i).
+    + rewrite nth_error_app1 by (rewrite firstn_length; lia). apply nth_error_firstn_lt. exact H0.
+    + rewrite nth_error_app2 by (rewrite firstn_length; lia). rewrite firstn_length.
+      replace (j - Nat.min i (List.length l)) with (S (j - i - 1)) by lia. cbn [nth_error].
+      rewrite nth_error_skipn_add. f_equal. lia.
+Qed.
+
+(* what one pass of the loop over [idx] does to positions: every i in idx is swapped with n-1-i *)
+Definition swapped (k n j : nat) : nat := if (j <? k) || (n - k <=? j) then n - 1 - j else j.
+
+Lemma loop_spec : forall k (s : pk) a,
+  let n := List.length (opcodes s) in
+  forall l0, List.length l0 = n -> a + k <= Nat.div n 2 ->
+  (forall j, j < n -> nth_error (opcodes s) j = nth_error l0 (swapped a n j)) ->
+  let s' := fst (m_reverse_loop R (seq a k) n s) in
+  List.length (opcodes s') = n /\
+  forall j, j < n -> nth_error (opcodes s') j = nth_error l0 (swapped (a + k) n j).
+Proof.
+  induction k as [|k IH]; intros s a n l0 L0 B INV; cbn [seq m_reverse_loop].
+  - cbn [fst]. rewrite Nat.add_0_r. auto.
+  - assert (n / 2 * 2 <= n) as D by (pose proof (Nat.div_mod n 2 ltac:(lia)); pose proof (Nat.mod_upper_bound n 2 ltac:(lia)); lia).
+    assert (a < n /\ n - a - 1 < n /\ a < n - a - 1) as (A1 & A2 & A3) by lia.
+    destruct (nth_error (opcodes s) (n - a - 1)) as [hi|] eqn:Hhi; [|apply nth_error_None in Hhi; fold n in Hhi; lia].
+    destruct (nth_error (opcodes s) a) as [lo|] eqn:Hlo; [|apply nth_error_None in Hlo; fold n in Hlo; lia].
+    pose proof (do_prim_opcodes X A P R (PSet (Z.of_nat a) hi) s) as D1. cbn [apply_prim] in D1.
+    fold n in D1. rewrite (py_index_nat n a A1) in D1.
+    destruct (do_prim R (PSet (Z.of_nat a) hi) s) as [s1 e1]. cbn [fst] in D1.
+    pose proof (do_prim_opcodes X A P R (PSet (Z.of_nat (n - a - 1)) lo) s1) as D2. cbn [apply_prim] in D2.
+    assert (List.length (opcodes s1) = n) as L1 by (rewrite D1; apply list_set_length; exact A1).
+    rewrite L1, (py_index_nat n (n - a - 1) A2) in D2.
+    destruct (do_prim R (PSet (Z.of_nat (n - a - 1)) lo) s1) as [s2 e2]. cbn [fst] in D2.
+    assert (List.length (opcodes s2) = n) as L2 by (rewrite D2; rewrite list_set_length; lia).
+    specialize (IH s2 (S a)). cbn zeta in IH. rewrite L2 in IH. specialize (IH l0 L0 ltac:(lia)).
+    assert (forall j, j < n -> nth_error (opcodes s2) j = nth_error l0 (swapped (S a) n j)) as INV2.
+    { intros j Hj. rewrite D2, nth_error_list_set by lia. rewrite D1, nth_error_list_set by (fold n; lia).
+      unfold swapped.
+      destruct (Nat.eqb j (n - a - 1)) eqn:E1.
+      - apply Nat.eqb_eq in E1. subst j. rewrite <- Hlo, (INV a A1). unfold swapped.
+        destruct (a <? a) eqn:Q1; [apply Nat.ltb_lt in Q1; lia|].
+        destruct (n - a <=? a) eqn:Q2; [apply Nat.leb_le in Q2; lia|]. cbn [orb].
+        destruct (n - a - 1 <? S a) eqn:Q3; [apply Nat.ltb_lt in Q3; lia|].
+        destruct (n - S a <=? n - a - 1) eqn:Q4; [|apply Nat.leb_gt in Q4; lia]. cbn [orb].
+        f_equal. lia.
+      - apply Nat.eqb_neq in E1. destruct (Nat.eqb j a) eqn:E2.
+        + apply Nat.eqb_eq in E2. subst j. rewrite <- Hhi, (INV (n - a - 1) A2). unfold swapped.
+          destruct (n - a - 1 <? a) eqn:Q1; [apply Nat.ltb_lt in Q1; lia|].
+          destruct (n - a <=? n - a - 1) eqn:Q2; [apply Nat.leb_le in Q2; lia|]. cbn [orb].
+          destruct (a <? S a) eqn:Q3; [|apply Nat.ltb_ge in Q3; lia]. cbn [orb]. f_equal. lia.
+        + apply Nat.eqb_neq in E2. rewrite (INV j Hj). unfold swapped.
+          destruct (j <? a) eqn:Q1, (n - a <=? j) eqn:Q2, (j <? S a) eqn:Q3, (n - S a <=? j) eqn:Q4;
+            cbn [orb]; try reflexivity;
+            repeat match goal with
+                   | H : (_ <? _) = true |- _ => apply Nat.ltb_lt in H
+                   | H : (_ <? _) = false |- _ => apply Nat.ltb_ge in H
+                   | H : (_ <=? _) = true |- _ => apply Nat.leb_le in H
+                   | H : (_ <=? _) = false |- _ => apply Nat.leb_gt in H
+                   end; lia. }
+    specialize (IH INV2).
+    destruct (m_reverse_loop R (seq (S a) k) n s2) as [s3 e3]. cbn [fst] in *.
+    replace (a + S k) with (S a + k) by lia. exact IH.
+Qed.
+
+Lemma nth_error_ext_eq : forall (l1 l2 : list X), List.length l1 = List.length l2 ->
+  (forall j, j < List.length l1 -> nth_error l1 j = nth_error l2 j) -> l1 = l2.
+Proof.
+  induction l1 as [|x r IH]; intros [|y t] L H; cbn in L; try discriminate; [reflexivity|].
+  pose proof (H 0 ltac:(cbn; lia)) as H0. cbn in H0. inversion H0; subst. f_equal.
+  apply IH; [lia|]. intros j Hj. apply (H (S j)). cbn. lia.
+Qed.
+
+Lemma m_reverse_list : forall s : pk, opcodes (fst (m_reverse R s)) = rev (opcodes s).
+Proof.
+  intros s. unfold m_reverse.
+  destruct (loop_spec (Nat.div (List.length (opcodes s)) 2) s 0 (opcodes s) eq_refl ltac:(lia)) as (L & N).
+  { intros j Hj. unfold swapped. cbn [Nat.ltb Nat.leb orb]. rewrite Nat.sub_0_r.
+    destruct (List.length (opcodes s) <=? j) eqn:Q; [apply Nat.leb_le in Q; lia|]. reflexivity. }
+  cbn [Nat.add] in N.
+  apply nth_error_ext_eq; [rewrite rev_length; exact L|].
+  intros j Hj. rewrite L in Hj. rewrite (N j Hj).
+  set (n := List.length (opcodes s)) in *.
+  assert (n / 2 * 2 <= n /\ n < n / 2 * 2 + 2) as (D1 & D2)
+    by (pose proof (Nat.div_mod n 2 ltac:(lia)); pose proof (Nat.mod_upper_bound n 2 ltac:(lia)); lia).
+  assert (swapped (n / 2) n j = n - 1 - j) as ->.
+  { unfold swapped. destruct (j <? n / 2) eqn:Q1; [reflexivity|].
+    destruct (n - n / 2 <=? j) eqn:Q2; [reflexivity|]. cbn [orb].
+    apply Nat.ltb_ge in Q1. apply Nat.leb_gt in Q2. lia. }
+  symmetry. apply nth_error_rev. exact Hj.
+Qed.
+End Reverse.
+
 (* ========================================================================================== *)
 (* Part 2: the instance -- independence of the hash seed                                      *)
 (* ========================================================================================== *)
